@@ -1,18 +1,204 @@
 /-
-pkg/exec/exec_varinput.go as written: evalVarAssignBlockText, evalExpressionText, assertASTIsVarAssignBlock,
-assertASTIsSingleExpr, ExecVarInputText, ExecExpressionInputText — over the parser model (`Parser.Parse`) and the
-evaluator model (`evalExpr` on a VM without any call frame).
+Model of pkg/exec/exec_varinput.go: the two entry points that evaluate *input-variable texts* before a program runs.
 
-Quirks kept: only `ExecBlock.StmtBlock` is looked at (import lines, an 输入 line and 拦截 handlers of the text are
-ignored); the error of `parser.Parse()` is tested BEFORE the tree is looked at (Parse hands back a tree together with
-the "tokens remain" error); the empty text is answered without parsing; names are bound by their literal.
+  ExecVarInputText(source)              = evalVarAssignBlockText(InitVM(NewGlobalValues()), source)
+  ExecExpressionInputText(map)          = evalExpressionText on every entry (sorted key order), ONE shared VM
+
+Both run the ordinary parser (`Model/Parser.lean`, `Model/ParserLex.lean`) on the text, check the shape of the tree
+(`assertASTIsVarAssignBlock`, `assertASTIsSingleExpr`) and hand the right-hand sides to the ordinary evaluator
+(`Model/Interp.lean` `evalExpr`) in a VM that has the predefined names but NO module, NO call frame and NO scope:
+`initVM ()` — call stack `[]`, `csModuleID = -1`, `scopes = []` — is exactly `r.InitVM(NewGlobalValues())`.
+
+What the empty stack means for the evaluator (all of it is `Model/Interp.lean` as it stands, nothing is special-cased here):
+  * `findElement` / `findElementWithModule` : globals first, then `currentScope`, which is `none` → NameNotDefined (42)
+    (Go: `getCurrentScope() == nil`; before commit e955303 the accessors indexed `callStack[-1]`);
+  * `getThis` : `topFrame = none` → `其 X` is error 48 (`getCurrentCallFrame() == nil`);
+  * `setElement` / `declareElement` : no scope → 42.  BUT a call — `（显示：1）` — pushes a frame of the native module (id -1),
+    and `PushCallFrame` creates the scope of module -1 (`initValueStack`); `PopCallFrame` then leaves `csModuleID = -1`, so from
+    that moment on a scope EXISTS: `得到乙` binds 乙 there, and `（乙）` finds it, with home module id -1 — the module
+    `GetModuleByID(-1)` = nil that commit 2eab72e replaces by the native module before pushing the frame;
+  * a failed call leaves its frame on the stack (as in programs); the next text entry of `ExecExpressionInputText` sees it.
+
+The functions below take the PARSED tree (or the parser's outcome); the text-level entry points compose them with
+`Parser.parseSource` and with `byteStreamReadAll` (`io.NewByteStream([]byte(text)).ReadAll()`, Model/Decode.lean).
+Core Lean only.
+
+One model for both users: the C10 side (Ops/VarInputText.lean, Properties/C10VarInput.lean, C05VarInput.lean) works on bytes / trees and
+keeps the VM in every outcome; the C05 stream of tools/props/varinput.py (Ops/VarInput.lean) calls `parseText`, `execVarInputText`,
+`execExpressionInputText` and the type `Out` at the end of this file, which are the same functions on code points.
 -/
 import ZnVerif.Model.Interp
 import ZnVerif.Model.ParserLex
+import ZnVerif.Model.Decode
 
 namespace ZnVerif.Model.VarInput
-open ZnVerif.Model ZnVerif.Model.Parser
+open ZnVerif.Model
 
+variable {ν : Type} [NumOps ν]
+
+/-- which step of exec_varinput.go answered `zerr.NewErrorSLOT(…)` (a plain `fmt.Errorf` error) -/
+inductive Reject where
+  /-- `parser.Parse()` returned an error (a syntax error, or the recovered run-time error of the parser) -/
+  | parse
+  /-- `assertASTIsVarAssignBlock` / `assertASTIsSingleExpr` answered false -/
+  | shape
+  /-- `vpair.TargetVar.(*syntax.ID)` failed: the target of an assignment is not a plain name -/
+  | target
+  deriving DecidableEq, Repr
+
+/-- what an entry point hands back to its caller -/
+inductive Outcome (ν : Type) (α : Type) where
+  /-- the result (a map of names to values / a value) and the VM as it was left -/
+  | ok (a : α) (vm : VM ν)
+  /-- `zerr.ReadVarInputError` (IOError, code 12): the text is not valid UTF-8 -/
+  | ioErr (code : Nat)
+  /-- `zerr.NewErrorSLOT` -/
+  | slot (why : Reject) (vm : VM ν)
+  /-- the error `evalExpression` returned, passed on unchanged -/
+  | evalErr (e : Err) (vm : VM ν)
+  /-- a Go run-time panic -/
+  | panic
+  /-- parser or evaluator would still be running -/
+  | fuel
+  /-- the evaluator model does not cover what the text reached (取随机数, text % list) -/
+  | unmodelled
+
+/-! ## the tree checks -/
+
+/-- the loop of `assertASTIsVarAssignBlock` over `StmtBlock.Children`: every child a `*VarAssignExpr` (collected, as the pair
+target / right-hand side) or an `*EmptyStmt` (skipped); anything else — another statement, another expression, a nil child —
+answers false -/
+def collectAssigns : List Stmt → Option (List (Expr × Expr))
+  | [] => some []
+  | .expr (.assign _ t e) :: rest =>
+    match collectAssigns rest with
+    | some ps => some ((t, e) :: ps)
+    | none => none
+  | .empty _ :: rest => collectAssigns rest
+  | _ :: _ => none
+
+/-- `assertASTIsVarAssignBlock`: `ExecBlock == nil` → false, `StmtBlock == nil` → false, then the loop -/
+def assertVarAssignBlock (p : Program) : Option (List (Expr × Expr)) :=
+  match p.exec with
+  | none => none
+  | some (.mk _ none _) => none
+  | some (.mk _ (some stmts) _) => collectAssigns stmts
+
+/-- `assertASTIsSingleExpr`: `ExecBlock == nil`, `StmtBlock == nil`, `len(Children) != 1` → false; then
+`Children[0].(syntax.Expression)` (a nil child fails the assertion) -/
+def assertSingleExpr (p : Program) : Option Expr :=
+  match p.exec with
+  | none => none
+  | some (.mk _ none _) => none
+  | some (.mk _ (some [.expr .nil]) _) => none
+  | some (.mk _ (some [.expr e]) _) => some e
+  | some (.mk _ (some _) _) => none
+
+/-! ## evaluation -/
+
+/-- step #4 of `evalVarAssignBlockText`: for each pair, in order — the target must be a plain ID (else SLOT error: the pairs
+before it HAVE been evaluated), the right-hand side is evaluated by `evalExpression` (first error returned as it is),
+`varInputMap[target literal] = value` (a Go map: a later assignment to the same name overwrites the earlier one).
+The key is the LITERAL of the ID: it is not passed through `MatchIDName`, so `1 = 2` binds the name "1". -/
+def evalAssigns (fuel : Nat) : List (Expr × Expr) → List (String × Addr) → VM ν → Outcome ν (List (String × Addr))
+  | [], acc, s => .ok acc s
+  | (t, e) :: rest, acc, s =>
+    match t with
+    | .id i =>
+      match evalExpr fuel e s with
+      | (.ok v, s') => evalAssigns fuel rest (assocSet i.lit v acc) s'
+      | (.err er, s') => .evalErr er s'
+      | (.panic, _) => .panic
+      | (.fuel, _) => .fuel
+      | (.unmodelled, _) => .unmodelled
+    | _ => .slot .target s
+
+/-- `evalVarAssignBlockText` from step #3 on, on a parsed tree, in the VM `s` -/
+def evalVarAssignBlockTree (fuel : Nat) (p : Program) (s : VM ν) : Outcome ν (List (String × Addr)) :=
+  match assertVarAssignBlock p with
+  | none => .slot .shape s
+  | some pairs => evalAssigns fuel pairs [] s
+
+/-- `evalExpressionText` from step #3 on -/
+def evalExpressionTree (fuel : Nat) (p : Program) (s : VM ν) : Outcome ν Addr :=
+  match assertSingleExpr p with
+  | none => .slot .shape s
+  | some e =>
+    match evalExpr fuel e s with
+    | (.ok v, s') => .ok v s'
+    | (.err er, s') => .evalErr er s'
+    | (.panic, _) => .panic
+    | (.fuel, _) => .fuel
+    | (.unmodelled, _) => .unmodelled
+
+/-- step #2: what the caller does with `parser.Parse()`'s answer (`err != nil` → SLOT error, whatever the error is) -/
+def afterParse {α} (o : Parser.Outcome) (k : Program → VM ν → Outcome ν α) (s : VM ν) : Outcome ν α :=
+  match o with
+  | .tree p => k p s
+  | .synErr _ => .slot .parse s
+  | .otherErr => .slot .parse s
+  | .outOfFuel => .fuel
+
+/-- `evalVarAssignBlockText` on the runes of the text (steps #0, #2, #3, #4), for any lexer: `len(blockText) == 0` returns the
+empty map without parsing -/
+def evalVarAssignBlockWith {σ : Type} (ops : Parser.LexOps σ) (pfuel fuel : Nat) (isEmpty : Bool) (l : σ) (s : VM ν) :
+    Outcome ν (List (String × Addr)) :=
+  if isEmpty then .ok [] s
+  else afterParse (Parser.parseAST .fixed ops pfuel l) (evalVarAssignBlockTree fuel) s
+
+def evalExpressionWith {σ : Type} (ops : Parser.LexOps σ) (pfuel fuel : Nat) (l : σ) (s : VM ν) : Outcome ν Addr :=
+  afterParse (Parser.parseAST .fixed ops pfuel l) (evalExpressionTree fuel) s
+
+/-- `evalVarAssignBlockText(vm, text)` on the BYTES of the Go string -/
+def evalVarAssignBlockText (pfuel fuel : Nat) (bytes : List Nat) (s : VM ν) : Outcome ν (List (String × Addr)) :=
+  if bytes.isEmpty then .ok [] s else
+  match byteStreamReadAll bytes with
+  | .error _ => .ioErr 12
+  | .ok src => evalVarAssignBlockWith Parser.realOps pfuel fuel false (mkLexer src) s
+
+/-- `evalExpressionText(vm, text)` -/
+def evalExpressionText (pfuel fuel : Nat) (bytes : List Nat) (s : VM ν) : Outcome ν Addr :=
+  match byteStreamReadAll bytes with
+  | .error _ => .ioErr 12
+  | .ok src => evalExpressionWith Parser.realOps pfuel fuel (mkLexer src) s
+
+/-- `ExecVarInputText(source)` on the BYTES of the Go string -/
+def execVarInputBytes (pfuel fuel : Nat) (bytes : List Nat) : Outcome ν (List (String × Addr)) :=
+  evalVarAssignBlockText pfuel fuel bytes (initVM ())
+
+/-- the tree-level twin used by the theorems and by the driver op that takes Go's own tree -/
+def execVarInputTree (fuel : Nat) (p : Program) : Outcome ν (List (String × Addr)) :=
+  evalVarAssignBlockTree fuel p (initVM ())
+
+/-- the loop of `ExecExpressionInputText` over the entries IN SORTED KEY ORDER (the collect-and-sort step is
+Model/MapSites.lean, C11 `exprInput_order_independent`): one VM for all entries, first error returned, `result[k] = value` -/
+def exprInputsLoop {α} (evalOne : α → VM ν → Outcome ν Addr) :
+    List (String × α) → List (String × Addr) → VM ν → Outcome ν (List (String × Addr))
+  | [], acc, s => .ok acc s
+  | (k, x) :: rest, acc, s =>
+    match evalOne x s with
+    | .ok v s' => exprInputsLoop evalOne rest (assocSet k v acc) s'
+    | .ioErr c => .ioErr c
+    | .slot w s' => .slot w s'
+    | .evalErr e s' => .evalErr e s'
+    | .panic => .panic
+    | .fuel => .fuel
+    | .unmodelled => .unmodelled
+
+/-- `ExecExpressionInputText` on entries (key, bytes of the text) sorted by key -/
+def execExpressionInputBytes (pfuel fuel : Nat) (entries : List (String × List Nat)) : Outcome ν (List (String × Addr)) :=
+  exprInputsLoop (evalExpressionText pfuel fuel) entries [] (initVM ())
+
+/-- tree-level twin -/
+def execExpressionInputTrees (fuel : Nat) (entries : List (String × Program)) : Outcome ν (List (String × Addr)) :=
+  exprInputsLoop (evalExpressionTree fuel) entries [] (initVM ())
+
+/-! ## the same entry points on CODE POINTS, under the names and signatures the C05 stream uses (Ops/VarInput.lean, tools/props/varinput.py)
+
+The harness hands `string(runes)` to the Go code, whose `ReadAll` gives the runes back: the decoding step is the identity there
+(a lone surrogate becomes U+FFFD on both sides of the comparison before the text reaches either). -/
+
+/-- the outcome as Ops/VarInput.lean prints it: errors without the VM -/
 inductive Out (ν : Type) where
   | bound (kvs : List (String × Addr)) (vm : VM ν)
   /-- zerr.NewErrorSLOT: the text does not parse / is not an assignment block / a target is not an identifier -/
@@ -22,77 +208,29 @@ inductive Out (ν : Type) where
   | fuel
   | unmodelled
 
-/-- what `parser.Parse()` hands to the caller: (tree, err) -/
-def parseText (src : List Nat) : Outcome := parseSource .fixed (40 * (src.length + 2) + 100) src
+def Outcome.toOut : Outcome ν (List (String × Addr)) → Out ν
+  | .ok kvs vm => .bound kvs vm
+  | .ioErr _ => .slotErr           -- not reachable from code points
+  | .slot _ _ => .slotErr
+  | .evalErr e _ => .evalErr e
+  | .panic => .panic
+  | .fuel => .fuel
+  | .unmodelled => .unmodelled
 
-/-- assertASTIsVarAssignBlock -/
-def assertVarAssignBlock (p : Program) : Option (List (Expr × Expr)) :=
-  match p.exec with
-  | none => none
-  | some (.mk _ none _) => none
-  | some (.mk _ (some stmts) _) => go stmts
-where
-  go : List Stmt → Option (List (Expr × Expr))
-    | [] => some []
-    | .expr (.assign _ t e) :: rest => (go rest).map ((t, e) :: ·)
-    | .empty _ :: rest => go rest
-    | _ => none
+/-- the parser fuel the driver uses: far above the linear bound of C05 `parse_terminates` -/
+def parseFuelFor (src : List Nat) : Nat := 40 * (src.length + 2) + 100
 
-/-- assertASTIsSingleExpr -/
-def assertSingleExpr (p : Program) : Option Expr :=
-  match p.exec with
-  | some (.mk _ (some [.expr e]) _) => (match e with | .nil => none | _ => some e)
-  | _ => none
+/-- what `parser.Parse()` hands to the caller -/
+def parseText (src : List Nat) : Parser.Outcome := Parser.parseSource .fixed (parseFuelFor src) src
 
-def assocPut {β} (k : String) (v : β) : List (String × β) → List (String × β)
-  | [] => [(k, v)]
-  | (k', v') :: rest => if k = k' then (k, v) :: rest else (k', v') :: assocPut k v rest
+/-- `ExecVarInputText` on the runes of the text -/
+def execVarInputRunes (pfuel fuel : Nat) (src : List Nat) : Outcome ν (List (String × Addr)) :=
+  evalVarAssignBlockWith Parser.realOps pfuel fuel src.isEmpty (mkLexer src) (initVM ())
 
-variable {ν : Type} [NumOps ν]
+def execVarInputText (fuel : Nat) (src : List Nat) : Out ν := (execVarInputRunes (parseFuelFor src) fuel src).toOut
 
-/-- step #4 of evalVarAssignBlockText -/
-def evalPairs (fuel : Nat) : List (Expr × Expr) → List (String × Addr) → VM ν → Out ν
-  | [], acc, vm => .bound acc vm
-  | (t, e) :: rest, acc, vm =>
-    match t with
-    | .id i =>
-      match evalExpr fuel e vm with
-      | (.ok a, vm') => evalPairs fuel rest (assocPut i.lit a acc) vm'
-      | (.err er, _) => .evalErr er
-      | (.panic, _) => .panic
-      | (.fuel, _) => .fuel
-      | (.unmodelled, _) => .unmodelled
-    | _ => .slotErr
-
-/-- evalVarAssignBlockText on a fresh VM (ExecVarInputText) -/
-def execVarInputText (fuel : Nat) (src : List Nat) : Out ν :=
-  if src.isEmpty then .bound [] (initVM ()) else
-  match parseText src with
-  | .tree p =>
-    match assertVarAssignBlock p with
-    | none => .slotErr
-    | some pairs => evalPairs fuel pairs [] (initVM ())
-  | .synErr _ => .slotErr
-  | .otherErr => .slotErr
-  | .outOfFuel => .fuel
-
-/-- evalExpressionText per entry, in the order given (the Go code sorts the keys), one VM for all -/
-def execExpressionInputText (fuel : Nat) : List (String × List Nat) → List (String × Addr) → VM ν → Out ν
-  | [], acc, vm => .bound acc vm
-  | (k, src) :: rest, acc, vm =>
-    match parseText src with
-    | .tree p =>
-      match assertSingleExpr p with
-      | none => .slotErr
-      | some e =>
-        match evalExpr fuel e vm with
-        | (.ok a, vm') => execExpressionInputText fuel rest (assocPut k a acc) vm'
-        | (.err er, _) => .evalErr er
-        | (.panic, _) => .panic
-        | (.fuel, _) => .fuel
-        | (.unmodelled, _) => .unmodelled
-    | .synErr _ => .slotErr
-    | .otherErr => .slotErr
-    | .outOfFuel => .fuel
+/-- `evalExpressionText` per entry (runes), in the order given (the Go code sorts the keys), one VM for all -/
+def execExpressionInputText (fuel : Nat) (entries : List (String × List Nat)) (acc : List (String × Addr)) (vm : VM ν) : Out ν :=
+  (exprInputsLoop (fun src => evalExpressionWith Parser.realOps (parseFuelFor src) fuel (mkLexer src)) entries acc vm).toOut
 
 end ZnVerif.Model.VarInput
